@@ -33,6 +33,7 @@ EXPECT_MSG = {'4t1': 't1', '4{"j":2}': {'j': 2}, 'bAAEC': b'\x00\x01\x02', '4sol
 SENDS = ['s-text', b'\xfe\xff', {'k': [1, 'v']}, 's-last']
 HANDLER_SENDS = ['hc-1', b'\x01hc', {'hc': 3}]
 IV, TO = 1.0, 1.0
+BEAT_LAG = 0.375       # delay of each PONG on its way to the server in the steady-heartbeat scenarios
 
 
 class Conduct(core.Scenario):
@@ -100,6 +101,19 @@ class Conduct(core.Scenario):
                     s.world.answer(s.world.server.pending_reqs('GET')[0], 200, '\x1e'.join(pk))
                     s.last_answer = s.world.now
                 srv.append(core.Action('GET<-' + name, fire, lambda s: en_get(s) and s.world.client.state == 'connected'))
+        # a steady heartbeat: the server PINGs every ping_interval plus the time the previous PONG took to arrive (BEAT_LAG)
+        for k in range(p.get('beat', 0)):
+            def beat(s):
+                if s.on_ws:
+                    s.world.ws_push(live_ws(s)[-1], '2')
+                else:
+                    s.world.answer(s.world.server.pending_reqs('GET')[0], 200, '2')
+                s.last_answer = s.world.now
+            en = (lambda s: bool(live_ws(s)) and s.world.client.state == 'connected' and s.world.client.current_transport == 'websocket') \
+                if self.on_ws else (lambda s: en_get(s) and s.world.client.state == 'connected')
+            srv.append(core.Action('beat%d' % k, beat, en, (k + 1) * (IV + BEAT_LAG)))
+        if p.get('beat'):
+            self.horizon = p['beat'] * (IV + BEAT_LAG) + IV + TO + 7.0
         self.last_answer = 0.0
         app = []
         self.send_calls = {}
@@ -183,7 +197,8 @@ class Conduct(core.Scenario):
             for one in PUSHES[name]:
                 if one.startswith('2'):
                     pings.append(one[1:])
-        pongs = [d for ch, t, d, k in out if t == 3 and d != 'probe']
+        pings += [''] * p.get('beat', 0)
+        pongs = [(d or '') for ch, t, d, k in out if t == 3 and d != 'probe']
         if sorted(pongs) != sorted(pings) or pongs != pings:
             self.flag('pong_echo_wrong', 'PINGs with data %r were answered by PONGs %r' % (pings, pongs), trigger=trig)
         # ---- server messages reach the handler once, in arrival order, decoded
@@ -461,6 +476,11 @@ def param_list(ctx):
             for sq in ([], ['msg']):
                 ps.append({'impl': impl, 'mode': mode, 'pushes': sq, 'nsend': 1, 'piggy': ['4welcome', '2hs']})
                 ps.append({'impl': impl, 'mode': mode, 'pushes': sq, 'nsend': 0, 'piggy': ['4w1', '4w2']})
+        # a healthy connection over several heartbeat cycles, each a little longer than ping_interval (the PONG takes time)
+        for mode in ('polling', 'websocket', 'upgrade_ok'):
+            for nb in ((4,) if ctx.quick else (3, 4, 6)):
+                ps.append({'impl': impl, 'mode': mode, 'pushes': [], 'nsend': 0, 'beat': nb})
+                ps.append({'impl': impl, 'mode': mode, 'pushes': ['msg'], 'nsend': 1, 'beat': nb})
         # connect() is called again while connected, between two sends and two PINGs
         for mode in ('polling', 'websocket', 'upgrade_ok'):
             ps.append({'impl': impl, 'mode': mode, 'pushes': ['pingx', 'ping_msg'], 'nsend': 3, 'connect_again': True})
